@@ -486,6 +486,39 @@ fn shared_witness_case_k(ctx: &mut Ctx, plan: &Plan, tag: &str, known: Option<&'
     }
 }
 
+/// literals of every length around each limit the parser knows (fail entropy: 512 bits, hidden
+/// roots: 64 hex digits, words: powers of two), in hex and binary spelling: a result or an error
+/// list, never a panic
+fn literal_boundaries(ctx: &mut Ctx) {
+    let digits = |r: &mut Rng, n: usize, hex: bool| -> String {
+        (0..n).map(|_| if hex { char::from_digit(r.below(16) as u32, 16).unwrap() } else { char::from_digit(r.below(2) as u32, 2).unwrap() }).collect()
+    };
+    let mut texts: Vec<String> = vec![];
+    for n in (120..=136).chain([1, 2, 63, 64, 65, 255, 256, 257]) {
+        let d = digits(&mut ctx.rng, n, true);
+        texts.push(format!("main := comp (pair (injl unit) unit) (case unit (fail 0x{d}))"));
+    }
+    for n in (500..=530).chain([1, 7, 8, 9, 127, 128, 129, 255, 256, 257, 1023, 1024, 1025]) {
+        let d = digits(&mut ctx.rng, n, false);
+        texts.push(format!("main := comp (pair (injl unit) unit) (case unit (fail 0b{d}))"));
+    }
+    for n in (60..=68).chain([0, 1, 31, 32, 33, 127, 128, 129]) {
+        let d = digits(&mut ctx.rng, n, true);
+        texts.push(format!("main := comp (pair (injl unit) unit) (assertl unit #{d})"));
+    }
+    for n in [0usize, 1, 2, 3, 4, 5, 7, 8, 9, 15, 16, 17, 31, 32, 33, 63, 64, 65, 127, 128, 129, 255, 256, 257, 511, 512, 513, 1023, 1024, 1025] {
+        let d = digits(&mut ctx.rng, n, false);
+        texts.push(format!("main := comp (const 0b{d}) unit"));
+        if n % 4 == 0 || n < 20 {
+            let h = digits(&mut ctx.rng, (n + 3) / 4, true);
+            texts.push(format!("main := comp (const 0x{h}) unit"));
+        }
+    }
+    for t in texts {
+        arbitrary_case(ctx, &t, "literal-boundary");
+    }
+}
+
 fn shared_witness_family(ctx: &mut Ctx) {
     use PNode::*;
     let close = |mut nodes: Vec<PNode>, a: usize| {
@@ -1584,6 +1617,7 @@ pub fn run(ctx: &mut Ctx) {
     }
     arbitrary(ctx, &seeds);
     finding_probes(ctx);
+    literal_boundaries(ctx);
     shared_witness_family(ctx);
     // source texts whose names look like the Namer's
     for it in 0..ctx.scale(60, 1200) {
